@@ -121,6 +121,26 @@ def generate(tier, seed):
     return cases
 
 
+def roots_fit(lead, F):
+    """every intermediate of the spec's exact evaluation (expansion, q^n P(z/q) term by term) stays below 2^30 in magnitude"""
+    P = [complex(lead[0], lead[1])]
+    for f in F:
+        z = complex(f["a"], f["b"])
+        P = [(f["q"] * (P[k - 1] if k >= 1 else 0)) - z * (P[k] if k < len(P) else 0) for k in range(len(P) + 1)]
+    n = len(F)
+    l1 = lambda c: abs(c.real) + abs(c.imag)
+    worst = max(l1(c) for c in P)
+    for f in F:
+        z = complex(f["a"], f["b"])
+        acc = 0
+        for k, c in enumerate(P):
+            zk = z ** k
+            worst = max(worst, l1(zk) * f["q"] ** (n - k) * 2, l1(c) * l1(zk) * f["q"] ** (n - k) * 2)
+            acc += l1(c) * l1(zk) * f["q"] ** (n - k)
+        worst = max(worst, acc)
+    return worst < 2 ** 30
+
+
 def gen_roots(tier, seed):
     """polynomials given by their linear factors (q x - (a + b i)); for real coefficients non-real factors come with their conjugates"""
     r = random.Random(seed)
@@ -168,6 +188,20 @@ def gen_roots(tier, seed):
         if mag >= LIM:
             return None
         return {"kind": "roots", "lead": lead, "real": int(real), "factors": F, "float": int(n <= 5), "style": style}
+    # quadratics whose roots differ in modulus by up to 1e6 (one large Gaussian integer, one small Gaussian rational), in every
+    # direction of the complex plane: the small root must come out with full relative accuracy
+    for real in (1, 0):
+        for _ in range(40 * reps):
+            mag = r.choice([60, 150, 300])
+            big = {"q": 1, "a": r.randint(-mag, mag), "b": 0 if real else r.randint(-mag, mag)}
+            if abs(big["a"]) + abs(big["b"]) < mag // 2:
+                big["b" if not real else "a"] = r.choice([-mag, mag])
+            small = {"q": r.choice([100, 500, 1000, 2000]), "a": r.randint(-3, 3), "b": 0 if real else r.randint(-3, 3)}
+            if small["a"] == 0 and small["b"] == 0:
+                small["a"] = 1
+            lead = [r.choice([-2, -1, 1, 1, 2]), 0]
+            if roots_fit(lead, [big, small]):
+                cases.append({"kind": "roots", "lead": lead, "real": int(real), "factors": [big, small], "float": 0, "style": "wide"})
     for n in (2, 3, 4, 5, 6, 8):
         for real in (1, 0):
             for style in ("plain", "multiple", "symmetric", "zero", "scaled"):
@@ -206,7 +240,7 @@ def gen_diff(tier, seed):
                 if mag >= LIM:
                     continue
                 cases.append({"kind": "diff", "A": A, "B": B, "C": C, "xp": xp, "q": q, "style": style,
-                              "acc": r.choice([-1, -1, 1e-6, 1e-10, 1e-3]), "asdefault": r.randint(0, 1)})
+                              "acc": r.choice([-1, -1, 1e-6, 1e-10, 1e-3]), "asdefault": r.randint(0, 2)})
     return cases
 
 
@@ -298,8 +332,13 @@ def check_roots(rep, c, o, worst):
             # RPOLY / CPOLY stop when |p| is below their own rounding-error bound; what they return is good to about 1e-9
             # relative to the coefficients (observed on the unchanged tree), not to machine precision: a perturbation of
             # 1e-7 of the coefficient scale is allowed for in double
-            eff = max(2e4 * n * eps, (1e-5 if m <= 2 else 1e-3) if prec == "double" else 0.0)
-            tol = (eff * scale * math.factorial(m) / pm) ** (1.0 / m) + 1e3 * eps * (1 + abs(z))
+            if api in ("Vec3", "Vec3c"):
+                # the quadratic overloads are closed forms: good to a few eps RELATIVE to the root (also for a root far
+                # smaller than the other one, which is what the stable form of the formula is for)
+                tol = (1e3 * eps * scale * math.factorial(m) / pm) ** (1.0 / m) + 1e3 * eps * abs(z) + 1e-300
+            else:
+                eff = max(2e4 * n * eps, (1e-5 if m <= 2 else 1e-3) if prec == "double" else 0.0)
+                tol = (eff * scale * math.factorial(m) / pm) ** (1.0 / m) + 1e3 * eps * (1 + abs(z))
             for _ in range(m):
                 j = min(range(len(left)), key=lambda j: abs(left[j] - z))
                 d = abs(left[j] - z)
